@@ -205,6 +205,9 @@ pub struct Isaac64 {
     pub randcnt: usize,
     pub cov_ind1: [bool; N],
     pub cov_ind2: [bool; N],
+    /// 32-bit partial value coincidences inside the steps generated so far (step, what, value): each
+    /// about 2^-31 per step (full 64-bit coincidences are out of reach of any enumeration)
+    pub internal: Vec<(usize, &'static str, u64)>,
 }
 
 fn mix64(v: &mut [u64; 8]) {
@@ -263,7 +266,7 @@ impl Isaac64 {
                 i += 8;
             }
         }
-        Isaac64 { mm, aa: 0, bb: 0, cc: 0, randrsl: [0; N], randcnt: 0, cov_ind1: [false; N], cov_ind2: [false; N] }
+        Isaac64 { mm, aa: 0, bb: 0, cc: 0, randrsl: [0; N], randcnt: 0, cov_ind1: [false; N], cov_ind2: [false; N], internal: Vec::new() }
     }
 
     pub fn from_seed_bytes(seed: &[u8]) -> Isaac64 {
@@ -308,12 +311,29 @@ impl Isaac64 {
             self.aa = self.mm[(i + 128) % N].wrapping_add(self.aa);
             let i1 = ((x >> 3) as usize) % N;
             self.cov_ind1[i1] = true;
-            let y = self.mm[i1].wrapping_add(self.aa).wrapping_add(self.bb);
+            let l1 = self.mm[i1];
+            let y = l1.wrapping_add(self.aa).wrapping_add(self.bb);
             self.mm[i] = y;
             let i2 = ((y >> 11) as usize) % N;
             self.cov_ind2[i2] = true;
-            self.bb = self.mm[i2].wrapping_add(x);
+            let l2 = self.mm[i2];
+            self.bb = l2.wrapping_add(x);
             self.randrsl[i] = self.bb;
+            // partial (one 32-bit half) value coincidences a half-word-keyed shortcut could single out
+            let lo = |v: u64| v as u32;
+            let hi = |v: u64| (v >> 32) as u32;
+            if (lo(l2) == lo(x) || hi(l2) == hi(x)) && i2 != i {
+                self.internal.push((i, "step whose second looked-up word shares a 32-bit half with the old word of the slot being rewritten, in another slot", x));
+            }
+            if (lo(l1) == lo(x) || hi(l1) == hi(x)) && i1 != i {
+                self.internal.push((i, "step whose first looked-up word shares a 32-bit half with the old word of the slot being rewritten, in another slot", x));
+            }
+            if lo(y) == lo(x) || hi(y) == hi(x) {
+                self.internal.push((i, "step that rewrites its slot with a word sharing a 32-bit half with the old one", x));
+            }
+            if lo(l1) == 0 || hi(l1) == 0 || lo(l2) == 0 || hi(l2) == 0 {
+                self.internal.push((i, "step with a looked-up word that has a zero 32-bit half", x));
+            }
         }
     }
 
